@@ -218,6 +218,7 @@ func ComputeLocksets(p *Prog) *Locksets {
 	ls := &Locksets{p: p, entry: map[*ssa.Function]lockset{}, at: map[ssa.Instruction]lockset{}}
 	// roots start with the empty lockset, the rest with TOP
 	root := map[*ssa.Function]bool{}
+	dead := map[*ssa.Function]bool{}
 	syncSites := map[*ssa.Function][]ssa.Instruction{}
 	for _, fn := range p.Fns {
 		if fn.Parent() != nil {
@@ -227,6 +228,12 @@ func ComputeLocksets(p *Prog) *Locksets {
 			} else {
 				syncSites[fn] = sites
 			}
+			continue
+		}
+		if len(p.Callers(fn)) == 0 && !externallyCallable(fn) && !ls.addressTaken(fn) && ls.deadMethod(fn) {
+			// method of an unexported type that is never called and whose type is
+			// never converted to an interface: unreachable outside the tests
+			dead[fn] = true
 			continue
 		}
 		if externallyCallable(fn) || len(p.Callers(fn)) == 0 || ls.addressTaken(fn) {
@@ -276,7 +283,7 @@ func ComputeLocksets(p *Prog) *Locksets {
 		}
 	}
 	for _, fn := range p.Fns {
-		if ls.entry[fn] == nil {
+		if ls.entry[fn] == nil && !dead[fn] {
 			ls.entry[fn] = lockset{}
 		}
 	}
@@ -386,4 +393,25 @@ func (ls *Locksets) SameSection(a, b ssa.Instruction, key string) bool {
 		}
 	})
 	return !bad
+}
+
+// deadMethod: fn is a method of an unexported named type that is never
+// converted to an interface anywhere in the package.
+func (ls *Locksets) deadMethod(fn *ssa.Function) bool {
+	if fn.Signature.Recv() == nil {
+		return false
+	}
+	rn := namedOf(fn.Signature.Recv().Type())
+	if rn == "" || isExportedName(rn) {
+		return false
+	}
+	conv := false
+	for _, g := range ls.p.Fns {
+		eachInstr(g, func(in ssa.Instruction) {
+			if mi, ok := in.(*ssa.MakeInterface); ok && namedOf(mi.X.Type()) == rn {
+				conv = true
+			}
+		})
+	}
+	return !conv
 }
